@@ -147,6 +147,12 @@ class Mir:
                 tr = p.split(" as ", 1)[1]
                 trait, _, meth = tr.rpartition(">::")
                 impls.setdefault("%s::%s" % (trait, meth), []).append(p)
+            else:
+                # the other spelling rustc uses for an impl that is not in the module of its self type:
+                # `module::<impl Trait for Type>::method`
+                mi = _re.match(r"^(?:.*::)?<impl (.+?) for .+>::(\w+)$", p)
+                if mi:
+                    impls.setdefault("%s::%s" % (mi.group(1), mi.group(2)), []).append(p)
         while todo:
             x = todo.pop()
             if x in seen:
